@@ -59,7 +59,7 @@ def gen_dir(seed, tier, focus):
         # traversal is about the shape of the graph: more directories, linked from several places, at several depths,
         # by write-cap and by read-cap
         ops += [["mkdir", ch.pick(W, "kind1", ["sdmf", "mdmf"])], ["mkdir", ch.pick(W, "kind2", ["sdmf", "mdmf"])]]
-        OBJ = OBJ + ["dir0", "dir1", "dir2", "dir0-ro", "dir1-ro", "dir2-ro"] * 2
+        OBJ = OBJ + ["dir0", "dir1", "dir2", "dir0-ro", "dir1-ro", "dir2-ro"] * 2 + ["lit0", "lit0", "chk", "ssk"]
     for i in range(nops):
         kind = ch.weighted(W, ("kind", i), [("add", 8), ("delete", 3), ("move", 3), ("setmd", 2), ("mkdir", 1.2), ("advance", 1.5),
                                             ("subdir", 1.5), ("addfile", 1.5), ("immdir", 0.8 if focus in ("C19", "C20", "C18") else 0.3),
@@ -75,7 +75,7 @@ def gen_dir(seed, tier, focus):
             ents = []
             for j in range(ch.randint(W, ("nents", i), 1, 4)):
                 ents.append([ch.pick(W, ("sname", i, j), NAMES), ch.pick(W, ("sobj", i, j), OBJ), ch.pick(W, ("smd", i, j), [None, {}, {"j": j}])])
-            ops.append(["setchildren", d, ents, ch.pick(W, ("ow", i), [True, False])])
+            ops.append(["setchildren", d, ents, ch.pick(W, ("ow", i), [True, False]), ch.pick(W, ("scvia", i), ["set_children", "set_nodes"])])
         elif kind == "delete":
             ops.append(["delete", d, name, ch.chance(W, ("mx", i), 0.7), ch.pick(W, ("must", i), [None, None, "file", "dir"])])
         elif kind == "move":
@@ -132,6 +132,7 @@ class World(object):
             return
         lit = b"URI:LIT:" + b"krugkidfnzsc4"            # small literal
         self.objs["lit"] = (None, lit)
+        self.objs["lit0"] = (None, b"URI:LIT:")           # the empty file
         st, r = run(w.upload(Data(b"literal two", convergence=b"")))
         self.objs["lit2"] = (None, r.get_uri())
         st, r = run(w.upload(Data(pat_bytes(5, 300), convergence=b"")))
@@ -454,7 +455,8 @@ def exec_dir(case):
                 else:
                     probe("add-ok-" + objname.split("-")[0])
             elif kind == "setchildren":
-                _, _, ents, ow = op
+                _, _, ents, ow = op[:4]
+                sc_via = op[4] if len(op) > 4 else "set_children"
                 entries = {}
                 mentries = []
                 last = {}
@@ -468,7 +470,15 @@ def exec_dir(case):
                 # later entries with an NFC-equal name win in dict order; mirror by normalising the same way
                 if len(set(norm(n_) for n_ in entries)) != len(entries):
                     continue
-                st, res = drive(node.set_children(entries, overwrite=ow), "set_children")
+                if sc_via == "set_nodes":
+                    # the batch given as node objects (what `tahoe cp` and the deep copy use)
+                    nentries = {}
+                    for n_, e_ in entries.items():
+                        nentries[n_] = (W.w.create_node_from_uri(e_[0], e_[1]), e_[2] if len(e_) > 2 else None)
+                    st, res = drive(node.set_nodes(nentries, overwrite=ow), "set_nodes")
+                    probe("set_nodes")
+                else:
+                    st, res = drive(node.set_children(entries, overwrite=ow), "set_children")
                 before = {k_: dict(v) for k_, v in d["children"].items()}
                 err = apply_add(didx, [(n_, c_, m_) for (n_, c_, m_) in mentries if n_ in entries], ow, now)
                 if err is not None:
@@ -769,6 +779,16 @@ def check_traverse(W, ridx, tkind, drive, bad, probe):
         exp_dirs = 1 + len([1 for vk, ps in exp_keys.items() if vk != root_v and is_dir_key(W, vk)]) + exp_lit_dirs[0]
         if count_dirs != exp_dirs:
             bad("C21", "stats-directories", "deep-stats counts %r directories, model reaches %d distinct directories" % (count_dirs, exp_dirs))
+        # files: literal files once per link (they have no identity beyond their contents), every other file once per object
+        lit_files = [1 for path, tgt in visits if tgt[0] == "file" and tgt[1].startswith(b"URI:LIT:")]
+        imm_files = set(verify_key(tgt[1]) for path, tgt in visits if tgt[0] == "file" and tgt[1].startswith(b"URI:CHK:"))
+        mut_files = set(verify_key(tgt[1]) for path, tgt in visits if tgt[0] == "file" and tgt[1].startswith((b"URI:SSK", b"URI:MDMF")))
+        for key_, want_ in (("count-literal-files", len(lit_files)), ("count-immutable-files", len(imm_files)),
+                            ("count-mutable-files", len(mut_files)), ("count-files", len(lit_files) + len(imm_files) + len(mut_files))):
+            if stats.get(key_) != want_:
+                bad("C21", "stats-files", "deep-stats reports %s = %r, the model reaches %d (literal file links %d, distinct immutable files %d, "
+                    "distinct mutable files %d)" % (key_, stats.get(key_), want_, len(lit_files), len(imm_files), len(mut_files)))
+                break
     else:
         cr = res
         counters = cr.get_counters()
